@@ -814,9 +814,33 @@ def run(ctx):
             if not ps:
                 disagreements.append({"function": "pickle_startb (hypothesis on CPython's pickler)", "case": c,
                                       "model": "pickle_startb = false", "impl": "payload head " + r["plain_head"]})
+    # 4b. numpy leg (interpreter common.PYNP): arrays are picklable objects too -- records mixing byte orders, nested and
+    # sub-array fields, object fields, and MiBs of zeros under zlib/gzip 4/7/9, through the C19 implementation driver
+    np_cases, np_fail = [], 0
+    try:
+        from props import c19 as c19mod          # lazy: c19 imports this module
+        mixed = [d for d in c19mod.DTYPES if isinstance(d, list) and not c19mod.is_object(d)]
+        for i in range(24 if quick else 240):
+            np_cases.append({"mode": "array", "seed": ctx.rng.randrange(10 ** 9), "dtype": ctx.rng.choice(mixed),
+                             "shape": ctx.rng.choice([[5], [3, 4], [2, 3, 2], [1]]), "layout": ctx.rng.choice(["C", "F", "strided", "T"]),
+                             "target": ctx.rng.choice(["path", "raw", "bytesio"]), "form": ctx.rng.choice(c19mod.FORMS),
+                             "proto": ctx.rng.choice([None, 2, 4, 5]), "filler": ctx.rng.choice([0, 5, 17]),
+                             "nested": ctx.rng.random() < 0.5, "ensure_native": ["auto", True, False][i % 3],
+                             "load_via": ctx.rng.choice(["path", "fileobj"])})
+        np_cases += [c for c in c19mod.gen_big(ctx.rng) if c["layout"] == "zeros"]
+        np_res = c19mod.run_parallel(np_cases, workers=6)
+        for c, r in zip(np_cases, np_res):
+            bad = c19mod.judge_array(c, r, k["alignment"])
+            if bad and bad[1] is None:
+                np_fail += 1
+                oracle_fail.append(("numpy array round trip (%s, ensure_native_byte_order=%r, compress=%r): %s"
+                                    % (c["dtype"], c.get("ensure_native"), c.get("form"), bad[0]), dict(c, via="c19_impl"),
+                                    {kk: vv for kk, vv in r.items() if kk in ("geom", "diff", "load_raise", "dump_raise")}))
+    except FileNotFoundError as e:
+        ctx.note("numpy interpreter %s not available, numpy leg skipped: %s" % (common.PYNP, e))
     # decide
     # report up to 4 failing inputs, one per kind of case first (end-to-end round trips before the unit-level ones)
-    rank = {"roundtrip": 0, "resolve": 1, "loadmatrix": 2, "detect": 3}
+    rank = {"roundtrip": 0, "array": 0, "resolve": 1, "loadmatrix": 2, "detect": 3}
     picked, seen_kinds = [], set()
     for item in sorted(oracle_fail, key=lambda x: rank.get(x[1].get("mode"), 9)):
         kind = (item[1].get("mode"), item[1].get("carrier") or (item[1].get("target") or {}).get("k"))
@@ -844,7 +868,7 @@ def run(ctx):
                            "correspondence": "Model/Persist.v resolve/detect vs numpy_pickle.dump / _detect_compressor"},
                           found_input=False)
     ctx.finish({
-        "evaluations": len(rcases) + len(rt) + 2 * 65536 + 75 * len(mat),
+        "evaluations": len(rcases) + len(rt) + 2 * 65536 + 75 * len(mat) + len(np_cases),
         "load_dispatch_combinations": 75 * len(mat),
         "distinct_nontrivial": len(nontrivial),
         "rule": "resolve: ALL compress forms (bool, None, ints -1..10 and 100, every registered name and unknown ones, "
@@ -861,6 +885,7 @@ def run(ctx):
         "resolve_outcomes": outcome,
         "roundtrip_cases": n_rt,
         "carrier_cases": n_car * len(CARRIERS),
+        "numpy_leg_cases": len(np_cases),
         "carrier_name_attribute_types": name_types,
         "roundtrip_skipped_not_picklable_by_cpython": unpicklable,
         "roundtrip_object_kinds": kinds,
@@ -889,11 +914,21 @@ def replay(ctx, path):
         print("replay file names a broken proof/correspondence, nothing to execute:", rep.get("kind"))
         return 1
     k = gen_c03.live_constants()
+    if c["mode"] == "array":
+        from props import c19 as c19mod
+        c = {kk: vv for kk, vv in c.items() if kk != "via"}
+        r = c19mod.run_impl_cases([c])[0]
+        b = c19mod.judge_array(c, r, k["alignment"])
+        bad = b[0] if b and b[1] is None else None
+        print("replay:", json.dumps(c), "=>", bad or "property holds")
+        return 1 if bad else 0
     r = run_impl_cases([c])[0]
     if c["mode"] == "resolve":
         bad = judge_resolve(c, r, k)
     elif c["mode"] == "roundtrip":
         bad = judge_roundtrip(c, r)
+    elif c["mode"] == "array":
+        pass
     elif c["mode"] == "loadmatrix":
         fails, _, _ = load_matrix_check(ctx, [c], [r], k, "plain")
         only = c.get("only")
